@@ -298,6 +298,39 @@ def gen_strptime_format(rng):
     return f
 
 
+LAW_LITS = ["-", "/", ":", " ", "T", "Z", "_", "--", " at ", "x", "h", "m", "s", " day ", "|", "#", "S", "Y-", " %", ]
+
+
+def gen_law_format(rng):
+    """a format of the language of Coq C16.Format (parts_ok + determines): (prefix, [(code, literal)]) with codes
+    Y m d H M S j and '1'..'9' (= %kS printing / %S parsing), any order, repeats allowed"""
+    codes = ["Y", "H", "M"] + (["j"] if rng.random() < 0.3 else ["m", "d"])
+    codes.append(rng.choice("123456789") if rng.random() < 0.5 else "S")
+    for _ in range(rng.choice([0, 0, 1, 2, 3])):
+        codes.append(rng.choice(["Y", "m", "d", "H", "M", "j"]))      # exactly one seconds field (Format.format_ok)
+    rng.shuffle(codes)
+    lits = [l for l in LAW_LITS if "%" not in l]
+    parts = []
+    for i, c in enumerate(codes):
+        last = i + 1 == len(codes)
+        parts.append((c, "" if (last and rng.random() < 0.5) else rng.choice(lits)))
+    pre = rng.choice(["", "", "t=", "[", "on "])
+    pf = pre + "".join("%" + (c + "S" if c in "123456789" else c) + l for c, l in parts)
+    qf = pre + "".join("%" + ("S" if c in "123456789" else c) + l for c, l in parts)
+    k = 0
+    for c, _ in parts:
+        if c in "123456789": k = int(c)
+        elif c == "S": k = 0
+    return pf, qf, k
+
+
+# determining formats over the codes the Coq model does not cover (oracle on the binary only); y2: two-digit year
+WIDE_FORMATS = [("%a %b %e %H:%M:%S %Y", 0), ("%A, %d %B %Y %T", 0), ("%FT%TZ", 0), ("%F %T", 0), ("%D %T", 1), ("%y-%m-%d %H:%M:%S", 1), ("%Y-%m-%e %H:%M:%S", 0),
+                ("%Y-%m-%d %I:%M:%S %p", 0), ("%I%p %M:%S %d %h %Y", 0), ("%Y-%j %H:%M:%S", 0), ("%Y%j%H%M%S", 0), ("%Y%m%d%H%M%S", 0), ("%Y-%m-%d %H:%M:%S %Z", 0),
+                ("%Y-%m-%d %H:%M:%S %z", 0), ("%c", 0), ("%x %X", 1), ("%Y-%m-%d %H:%M:%S%%", 0), ("%d/%m/%Y %Hh%Mm%Ss", 0), ("%H%M%S%d%m%Y", 0), ("%B %e, %Y at %I:%M:%S %p", 0),
+                ("%Y-%m-%dT%H:%M:%SZ", 0), ("%e %b %Y %r", 0), ("%R:%S %F", 0)]
+
+
 def render_for_parse(fmt, sec):
     """text of instant sec under a numeric strptime format (python reference renderer)"""
     return ref_strftime(fmt, sec, 0)
@@ -450,6 +483,66 @@ def run(ctx):
                 bad("strptime-unixnano-overflow" if abs(e) * 10 ** 9 >= 2 ** 63 else "strptime-seconds-float-rounding", input={"text": a, "format": f}, observed=o["s"], expected=str(e),
                     how="mlr -n put 'end{print strptime(\"%s\", \"%s\")}'" % (a, f))
         ctx.dist("strptime_cases", len(rows))
+        # ---- (D2) the general format law: formats of the Coq format language, printing side / parsing side
+        rows, exp = [], []
+        inr = [t for t in pts if LO <= t <= HI]
+        for _ in range(70 if quick else 3000):
+            pf, qf, k = gen_law_format(ctx.rng)
+            t = ctx.rng.choice(inr) if ctx.rng.random() < 0.7 else ctx.rng.randint(LO, HI)
+            ns = ctx.rng.choice([0, 1, 999999999, 500000000, 123456789, ctx.rng.randint(0, 999999999)])
+            rows.append((str(t), str(ns), pf, qf)); exp.append(k)
+        res = mlr_rows(ctx, ["t", "ns", "pf", "qf"], rows, P(["strftime($t,$pf)", "strptime(strftime($t,$pf),$qf)", "strpntime(strftime($t,$pf),$qf)",
+                                                              "strfntime($t * 1000000000 + $ns, $pf)", "strpntime(strfntime($t * 1000000000 + $ns, $pf), $qf)"]),
+                       ["txt", "back", "nback", "ntxt", "nnback"])
+        for (ts, nss, pf, qf), o, k in zip(rows, res, exp):
+            o2 = o
+            t, ns = int(ts), int(nss)
+            case(4, t, 0, o["txt"], pf, {"fn": "strftime", "t": t, "f": pf})
+            if o["nback"] == ERR:
+                case(7, 0, 1, o["txt"], qf, {"fn": "strpntime", "a": o["txt"], "f": qf})
+            else:
+                case(7, int(o["nback"]), 0, o["txt"], qf, {"fn": "strpntime", "a": o["txt"], "f": qf})
+            if o2["back"] == ERR or float(o2["back"]) != float(t):
+                bad("strptime-strftime-format-law", input={"t": t, "print_format": pf, "parse_format": qf, "text": o["txt"]}, observed=o2["back"], expected=str(t),
+                    how="mlr -n put 'end{print strptime(strftime(%d, \"%s\"), \"%s\")}'" % (t, pf, qf))
+            if abs(t) < 9 * 10 ** 9:
+                want = t * 10 ** 9 + ns // 10 ** (9 - k) * 10 ** (9 - k)
+                case(6, t * 10 ** 9 + ns, 0, o["ntxt"], pf, {"fn": "strfntime", "t": t, "ns": ns, "f": pf})
+                if o["nnback"] != ERR:
+                    case(7, int(o["nnback"]), 0, o["ntxt"], qf, {"fn": "strpntime", "a": o["ntxt"], "f": qf})
+                if o["nnback"] != str(want):
+                    bad("strptime-strftime-format-law", input={"ns": t * 10 ** 9 + ns, "print_format": pf, "parse_format": qf, "text": o["ntxt"]}, observed=o["nnback"], expected=str(want),
+                        how="mlr -n put 'end{print strpntime(strfntime(%d, \"%s\"), \"%s\")}'" % (t * 10 ** 9 + ns, pf, qf))
+        ctx.dist("format_law_cases", len(rows))
+        # ---- (D3) determining formats over the codes outside the Coq model (names, %y, %e, %I/%p, %Z, %z, shorthands): binary only
+        rows = []
+        for f, y2 in WIDE_FORMATS:
+            for t in ctx.rng.sample(inr, 3 if quick else 60) + [0, 43200, 46799, 3600, 951868799, 1709207999, 978307199, 1104537600 + 366 * 86400 - 1]:
+                if y2 and not (-31536000 <= t < 3124224000):         # %y: 1969..2068 is the window time.Parse maps two-digit years to
+                    continue
+                rows.append((str(t), f))
+        res = mlr_rows(ctx, ["t", "f"], rows, P(["strftime($t,$f)", "strptime(strftime($t,$f),$f)"]), ["txt", "back"])
+        for (ts, f), o in zip(rows, res):
+            ctx.count(("wide", ts, f))
+            if o["back"] == ERR or float(o["back"]) != float(ts):
+                bad("strptime-strftime-roundtrip-wide-codes", input={"t": int(ts), "format": f, "text": o["txt"]}, observed=o["back"], expected=ts,
+                    how="mlr -n put 'end{print strptime(strftime(%s, \"%s\"), \"%s\")}'" % (ts, f, f))
+        ctx.dist("wide_code_roundtrip_cases", len(rows))
+        # formats strftime prints but strptime has no code for (known finding strptime-no-epoch-seconds-code)
+        rows = [("0", "%Y-%m-%d PM %H:%M:%S"), ("1500000000", "%Y-%m-%d %H:%M#5%S")]
+        res = mlr_rows(ctx, ["t", "f"], rows, P(["strftime($t,$f)", "strptime(strftime($t,$f),$f)"]), ["txt", "back"])
+        for (ts, f), o in zip(rows, res):
+            ctx.count(("layout-literal", ts, f))
+            if o["back"] == ERR or float(o["back"]) != float(ts):
+                bad("strptime-literal-read-as-layout", input={"t": int(ts), "format": f, "text": o["txt"]}, observed=o["back"], expected=ts,
+                    how="mlr -n put 'end{print strptime(strftime(%s, \"%s\"), \"%s\")}'" % (ts, f, f))
+        rows = [("1500000000", "%s"), ("-1", "%s"), ("1500000000", "%Y-%m-%d %H:%M:%6S"), ("0", "%Y-%m-%dT%H:%M:%3SZ")]
+        res = mlr_rows(ctx, ["t", "f"], rows, P(["strftime($t,$f)", "strptime(strftime($t,$f),$f)", "strpntime(strftime($t,$f),$f)"]), ["txt", "back", "nback"])
+        for (ts, f), o in zip(rows, res):
+            case(7, 0, 1, o["txt"], f, {"fn": "strpntime", "a": o["txt"], "f": f}) if o["nback"] == ERR else case(7, int(o["nback"]), 0, o["txt"], f, {"fn": "strpntime", "a": o["txt"], "f": f})
+            if o["back"] == ERR or float(o["back"]) != float(ts):
+                bad("strptime-no-epoch-seconds-code", input={"t": int(ts), "format": f, "text": o["txt"]}, observed=o["back"], expected=ts,
+                    how="mlr -n put 'end{print strptime(strftime(%s, \"%s\"), \"%s\")}'" % (ts, f, f))
         # ---- (E) d/h/m/s
         ints = set([0, 1, -1, 59, 60, 61, -59, -60, -61, 3599, 3600, 3601, -3600, 86399, 86400, 86401, -86400, -86401, 500000, 5000, -4000, -90000,
                     2 ** 63 - 1, -2 ** 63 + 1, -2 ** 63, 2 ** 62, -2 ** 62, 10 ** 18, -10 ** 18])
